@@ -104,7 +104,20 @@ func (cls *CachedLocations) expire(ctx *Context, sys *System, name string, relea
 	dead := false
 	if have {
 		cl.Lock()
-		cl.Pending = !released
+		// Count the requests that have opened this entry and not
+		// released it yet.  (A flag is not enough: the release of
+		// one request would make the entry look idle while another
+		// request is still working with its location, and once the
+		// entry is evicted a second instance of the location gets
+		// loaded, which doesn't see what the first one writes.)
+		if released {
+			if 0 < cl.users {
+				cl.users--
+			}
+		} else {
+			cl.users++
+		}
+		cl.Pending = 0 < cl.users
 		Log(INFO, ctx, "CachedLocations.expire", "name", name, "cached", "exists")
 		if cl.Pending || cl.Expires.After(time.Now()) {
 			Log(INFO, ctx, "CachedLocations.expire", "name", name, "cached", "live")
@@ -151,6 +164,8 @@ func (cls *CachedLocations) Open(ctx *Context, sys *System, name string, check b
 		Log(INFO, ctx, "CachedLocations.Open", "name", name, "expires", expires.String())
 		cl := &CachedLocation{
 			Expires: expires,
+			Pending: true,
+			users:   1,
 		}
 
 		if ttl != Never || ctl.CachePending {
@@ -200,6 +215,9 @@ type CachedLocation struct {
 	sync.Mutex
 	Expires time.Time
 	Pending bool
+	// users is the number of requests that have opened this entry
+	// and not released it yet.
+	users int
 	*Location
 }
 
@@ -787,6 +805,7 @@ func (sys *System) CreateLocation(ctx *Context, location string) (bool, error) {
 	atomic.AddUint64(&sys.stats.TotalCalls, uint64(1))
 
 	loc, err := sys.findLocation(ctx, location, false)
+	defer sys.releaseLocation(ctx, location)
 	ctx.SetLoc(loc)
 
 	var exists bool
@@ -859,6 +878,9 @@ func legalFactWithout(ctx *Context, fact string, prop string) error {
 //
 // Just calls 'findLocation(,,false)'.
 func (sys *System) GetLocation(ctx *Context, name string) (*Location, error) {
+	// The caller has no way to say when it's done with the
+	// location, so don't leave it marked as in use.
+	defer sys.releaseLocation(ctx, name)
 	return sys.findLocation(ctx, name, false)
 }
 
